@@ -1061,6 +1061,8 @@ class Parser:
                 self._check_assignment_target(expr)
                 op = self._advance().value
                 expr = UpdateExpression(op, expr, prefix=False)
+                # (nothing can be called or indexed on a++)
+                break
             else:
                 break
 
